@@ -19,7 +19,7 @@ def main():
     else:
         from . import histsim, runner
         W = runner.worker()
-        log, viols = W.run_ops(rep["ops"], rep["cfg"]["passive"], second=True)
+        log, viols = W.run_ops(rep["ops"], rep["cfg"]["passive"], second=True, cold_seed=rep["cfg"].get("cold_seed"))
         hit = [v for v in viols if v.oracle == rep["violation_class"]
                and histsim.attributable(rep["property"], v, rep["ops"], log)]
         ok = bool(hit)
